@@ -41,7 +41,9 @@ def ctxf(v):
 
 # (text, data vars, context value names, context callables, K4 tag)
 TEMPL = [
-    ("x", ["x"], [], [], None), ("y", ["y"], [], [], None), ("A", ["A"], [], [], None), ("`x y`", ["x y"], [], [], None), ("`w+1`", ["w+1"], [], [], None),
+    ("x", ["x"], [], [], None), ("y", ["y"], [], [], None),
+    # data columns that share their name with a built-in transform, used as factors in their own right
+    ("scale", ["scale"], [], [], None), ("C", ["C"], [], [], None), ("scale:center(x)", ["scale", "x"], [], [], None), ("A", ["A"], [], [], None), ("`x y`", ["x y"], [], [], None), ("`w+1`", ["w+1"], [], [], None),
     ("log(y)", ["y"], [], [], None), ("np.log(y)", ["y"], [], [], None), ("C(A)", ["A"], [], [], None), ("C(B, contr.sum)", ["B"], [], [], None),
     ("I(x*k)", ["x"], ["k"], [], None), ("{x + cv}", ["x"], ["cv"], [], None), ("ctxf(z)", ["z"], [], ["ctxf"], None), ("center(x)", ["x"], [], [], None),
     ("poly(z, 2)", ["z"], [], [], None), ("bs(y, df=3)", ["y"], [], [], None), ("I(`x y` + z)", ["x y", "z"], [], [], None),
@@ -66,6 +68,7 @@ def mkdata(seed):
         "A": pd.Categorical([r.choice("uvw") for _ in range(N)], categories=list("uvw")),
         "B": pd.Categorical([r.choice("kl") for _ in range(N)], categories=list("kl")),
         "x y": rng.normal(size=N), "w+1": rng.normal(size=N), "class": rng.normal(size=N), "unused": rng.normal(size=N),
+        "scale": rng.normal(size=N), "C": rng.normal(size=N),
     })
 
 
@@ -73,6 +76,9 @@ def gen_required(rng: random.Random, tier: str) -> dict:
     k4 = rng.random() < 0.15
     pool = [i for i, t in enumerate(TEMPL) if (t[4] is None) or k4]
     facs = rng.sample(pool, rng.randint(1, 4))
+    texts = [TEMPL[i][0] for i in facs]
+    if any(t.split(":")[0] in ("scale", "C") for t in texts):  # a data column called `scale` / `C` hides the transform of that name
+        facs = [i for i in facs if TEMPL[i][0].split(":")[0] in ("scale", "C") or not ("scale(" in TEMPL[i][0] or "C(" in TEMPL[i][0])]
     terms = []
     for _ in range(rng.randint(1, 3)):
         terms.append(rng.sample(facs, rng.randint(1, min(2, len(facs)))))
@@ -87,6 +93,8 @@ def judge_required(case) -> Outcome:
     used = [TEMPL[i] for t in case["terms"] for i in t]
     out.sig = (tuple(sorted({i for t in case["terms"] for i in t})), case["two"], tuple(sorted(len(t) for t in case["terms"])))
     df = mkdata(case["seed"])
+    if not any(TEMPL[i][0].split(":")[0] in ("scale", "C") for t in case["terms"] for i in t):
+        df = df.drop(columns=["scale", "C"])
     import types
 
     ctx = {"k": 2.0, "cv": np.arange(N, dtype=float), "ctxf": ctxf,
@@ -158,7 +166,11 @@ def judge_required(case) -> Outcome:
         except FactorEvaluationError:
             out.see("necessity_checked")
         except Exception as e:  # noqa: BLE001
-            out.fail("c17.necessity_wrong_error", f"{f!r} without {dname!r}: {type(e).__name__}: {str(e)[:100]} (expected FactorEvaluationError)")
+            if dname in ("scale", "C") and "find_nulls" in str(e):
+                # finding K4d: without the column the name falls through to the built-in transform, a function object
+                out.fail("c17.missing_column_resolves_to_transform", f"{f!r} without {dname!r}: {type(e).__name__}: {str(e)[:100]}")
+            else:
+                out.fail("c17.necessity_wrong_error", f"{f!r} without {dname!r}: {type(e).__name__}: {str(e)[:100]} (expected FactorEvaluationError)")
     # sources
     bysrc = collections.defaultdict(set)
     for s in (list(ms._flatten()) if hasattr(ms, "_flatten") else [ms]):
@@ -294,7 +306,9 @@ def gen_dot(rng: random.Random, tier: str) -> dict:
     w = rng.choice(rest)
     extra = extra.format(v=f"`{v}`", w=f"`{w}`")
     return {"names": names, "lhs": lhs, "extra": extra, "v": v, "w": w, "icpt": rng.random() < 0.7,
-            "parser": rng.choice(["default", "default", "no_intercept"])}
+            "parser": rng.choice(["default", "default", "no_intercept"]),
+            # the response may be used inside a Python call or expression (where its name has to be quoted)
+            "lhs_wrap": rng.choice([None, None, "I(`{n}`)", "{{`{n}` * 2}}", "abs(`{n}`)"])}
 
 
 def judge_dot(case) -> Outcome:
@@ -304,11 +318,12 @@ def judge_dot(case) -> Outcome:
     out = Outcome()
     names, lhs = case["names"], case["lhs"]
     nointercept = case.get("parser") == "no_intercept"
-    out.sig = (len(names), len(lhs), case["extra"].split("`")[0], names.index(lhs[0]), case["icpt"], "." in lhs[0], nointercept)
+    out.sig = (len(names), len(lhs), case["extra"].split("`")[0], names.index(lhs[0]), case["icpt"], "." in lhs[0], nointercept, case.get("lhs_wrap"))
     rng = np.random.default_rng(len(names))
     df = pd.DataFrame({n: rng.normal(size=5) for n in names})
     head = ("" if case["icpt"] else "0 + ") if not nointercept else ("1 + " if case["icpt"] else "")
-    f = " + ".join(f"`{n}`" for n in lhs) + " ~ " + head + "." + case["extra"]
+    wrap = case.get("lhs_wrap") or "`{n}`"
+    f = " + ".join(wrap.format(n=n) for n in lhs) + " ~ " + head + "." + case["extra"]
     expected = [n for n in names if n not in lhs]
     if case["extra"].startswith(" - "):
         expected = [n for n in expected if n != case["v"]]
